@@ -366,6 +366,21 @@ func (c *ctx) factsSites(repo string) {
 			}
 		}
 	}
+	// every place that enables multi-source parsing (ParamsMultiSource: true) in a composite literal
+	var multi []string
+	for _, k := range paths {
+		p := c.pkgs[k]
+		for _, f := range p.Syntax {
+			ast.Inspect(f, func(n ast.Node) bool {
+				if kv, ok := n.(*ast.KeyValueExpr); ok && exprString(p, kv.Key) == "ParamsMultiSource" {
+					multi = append(multi, filepath.Base(p.Fset.Position(kv.Pos()).Filename)+":"+exprString(p, kv.Value))
+				}
+				return true
+			})
+		}
+	}
+	sort.Strings(multi)
+	c.emit("\ndef multiSourceEnabledSites : List String := %s\n", qlist(multi))
 	sort.Strings(ranges)
 	sort.Strings(panics)
 	sort.Strings(fsWrites)
@@ -385,14 +400,14 @@ func quoteAll(xs []string) []string {
 	return ys
 }
 
-
 // classifyRange summarises what the body of a range-over-map loop does, so that the order-sensitivity
 // review in the Lean model (Gv.Props.C09) is re-checked when a loop changes:
-//   append:<slice>[,sorted]  elements are collected into a slice (which the function sorts afterwards)
-//   insert                   writes into a map / set (m[k] = v, delete, .Used(k))
-//   return-false             universal quantifier (if ... { return false })
-//   return                   any other return inside the loop
-//   call:<f>                 calls a function for each entry
+//
+//	append:<slice>[,sorted]  elements are collected into a slice (which the function sorts afterwards)
+//	insert                   writes into a map / set (m[k] = v, delete, .Used(k))
+//	return-false             universal quantifier (if ... { return false })
+//	return                   any other return inside the loop
+//	call:<f>                 calls a function for each entry
 func classifyRange(p *packages.Package, fd *ast.FuncDecl, loop *ast.RangeStmt) string {
 	feats := map[string]bool{}
 	slices := map[string]bool{}
